@@ -142,6 +142,8 @@ MUTANTS = [
     ("C02", "R02g", "graphtage.py", "            return self.object == other.object and isinstance(self.object, bool) == isinstance(other.object, bool)", "            return self.object == other.object", "original defect: True == 1"),
     ("C03", "R03g", "graphtage.py", "        if isinstance(node, NullNode):\n            # A null has size zero, so the edit distance to the text \"None\" can exceed the sizes of both nodes,\n            # which every enclosing edit assumes to bound the cost; replace instead, as NullNode.edits does\n            return Replace(self, node)\n        elif isinstance(node, LeafNode):", "        if isinstance(node, LeafNode):", "original defect: leaf to null priced by text"),
     ("C15", "R15d", "matching.py", "    if edge_type is None:\n        # There are no edges in the graph\n        return {}\n\n    if has_null_edges:", "    if has_null_edges:", "SKIP"),
+    ("C10", "E11", "multiset.py", "            to_remove_from = []\n            for f in from_set.keys():\n                if not isinstance(f, graphtage.KeyValuePairNode):\n                    continue\n                for t in to_set.keys():", "            to_remove_from = []\n            candidates = iter(to_set.keys())\n            for f in from_set.keys():\n                if not isinstance(f, graphtage.KeyValuePairNode):\n                    continue\n                for t in candidates:", "one-shot iterator hoisted out of the loop"),
+    ("C01", "E11", "multiset.py", "            to_remove_from = []\n            for f in from_set.keys():\n                if not isinstance(f, graphtage.KeyValuePairNode):\n                    continue\n                for t in to_set.keys():", "            to_remove_from = []\n            candidates = (k for k in to_set.keys())\n            for f in from_set.keys():\n                if not isinstance(f, graphtage.KeyValuePairNode):\n                    continue\n                for t in candidates:", "generator expression hoisted out of the loop"),
 ]
 MUTANTS = [m for m in MUTANTS if m[5] != "SKIP"]
 
